@@ -216,6 +216,26 @@ class P(flow.Plan):
         ca, ct, _, _ = cj.validate(ctl)
         if ct and ca:
             raise flow.MachineryError("SenderJobsImplTrace accepted %d of %d corrupted traces" % (ca, ct))
+        # the callback interface (PrinterEventHandler) on the same executions, with three planted corruptions
+        cb_counts, cb_fails = cj.validate_callbacks(trs)
+        base = next((t for t in trs if len([e for e in t["evcb"] if e["k"] == "cb" and e["name"] == "send"]) >= 2
+                     and [e for e in t["evcb"] if e["k"] == "cb" and e["name"] == "printsend"]), None)
+        cb_ctl = 0
+        if base is not None:
+            c1, c2, c3 = _c.deepcopy(base), _c.deepcopy(base), _c.deepcopy(base)
+            del c1["evcb"][[i for i, e in enumerate(c1["evcb"]) if e["k"] == "cb" and e["name"] == "printsend"][0]]
+            c2["evcb"][[i for i, e in enumerate(c2["evcb"]) if e["k"] == "cb" and e["name"] == "send"][1]]["text"] = list(b"N0 G1 X99*1")
+            k3 = [i for i, e in enumerate(c3["evcb"]) if e["k"] == "cb" and e["name"] == "start"][0]
+            c3["evcb"][k3]["flag"] = not c3["evcb"][k3]["flag"]
+            _, cf = cj.validate_callbacks([c1, c2, c3])
+            got = {(i, c) for i, _, c in cf}
+            want = {(0, "CB_PrintSend"), (1, "CB_Send"), (2, "CB_StartEnd")}
+            if not want <= got:
+                raise flow.MachineryError("CallbacksTrace missed planted corruptions: %s" % sorted(want - got))
+            cb_ctl = 3
+        if cb_fails:
+            flow.say("NOTE callbacks (beyond the listed properties): %d clause failures of the PrinterEventHandler contract, first: trace %d step %d %s"
+                     % (len(cb_fails), cb_fails[0][0], cb_fails[0][1], cb_fails[0][2]))
         kinds = {}
         for t in trs:
             for e in t["ev"]:
@@ -227,6 +247,7 @@ class P(flow.Plan):
             flow.say("NOTE job life cycle: a model invariant fails on a state matched to a real execution: %s" % inv[:3])
         return {"job_life_cycle": {"executions": tot, "accepted_by_SenderJobsImpl": acc, "harness_lost": lost,
                                    "events": kinds, "corrupted_traces_rejected": "%d of %d" % (ct - ca, ct),
+                                   "callbacks_contract": {"clause_checks": cb_counts, "failures": len(cb_fails), "planted_corruptions_detected": cb_ctl},
                                    "invariant_notes": [list(x) for x in inv[:5]],
                                    "F19_resume_displaces_machine": {"executions": len(f19), "directed_witnesses_reproduced": "%d of %d" % (len(wit), len(cj.F19_WITNESSES))},
                                    "rejected_scenarios": [trs[i]["meta"]["scenario"] for i in rej[:3]]}}
